@@ -180,6 +180,8 @@ def judge(ck, desc, cls, res, fluid, t, pp, sched, m_i, m_f):
 
 
 def finalize_shard(ck):
+    for k_, v_ in sim.TRAP.events.items():
+        ck.count(f"fp_events.{k_}", v_)
     Rr = sim.REACH
     for label in Rr.total:
         ck.reach[label] = set(Rr.hit[label] & Rr.total[label])
